@@ -33,6 +33,8 @@ SRV2 = ws.make_server()
 FAIL = []
 PA, PB, PC, PI = f"{R}/a.f90", f"{R}/mb.f90", f"{R}/asub.f90", f"{R}/inc.f90"
 PG, PP = f"{R}/g1.f90", f"{R}/p1.f90"
+PJ = f"{R}/inc2.f90"  # included through a path that is not in normal form ('./inc2.f90')
+J = ["integer :: second_inc\n", "real :: j_b\ninteger :: second_inc\n"]
 G = ["module g1\n  type gt\n    integer :: gx\n  end type gt\nend module g1\n",
      "module g1\n  type gt\n    integer :: gy\n    real :: g2\n  end type gt\nend module g1\n"]
 P = "module p1\n  use g1\n  type, extends(gt) :: mt\n    integer :: px\n  end type mt\nend module p1\n"
@@ -46,8 +48,8 @@ A = [
 ]
 B = ("module mb\n  use a\n  use p1\n  type, extends(t) :: u\n    integer :: own\n  contains\n    procedure :: bound => helper\n  end type u\n"
      "  type, extends(mt) :: leaf\n    integer :: lx\n  end type leaf\n  type(leaf) :: z\n"
-     "  type(t) :: v\n  type(u) :: w\n  include 'inc.f90'\ncontains\n  subroutine s()\n    v%\n    w%\n    z%\n    av = 1\n    call helper()\n"
-     "    from_inc = 2\n    inc_b = 3\n    call w%bound()\n  end subroutine s\nend module mb\n")
+     "  type(t) :: v\n  type(u) :: w\n  include 'inc.f90'\n  include './inc2.f90'\ncontains\n  subroutine s()\n    v%\n    w%\n    z%\n    av = 1\n    call helper()\n"
+     "    from_inc = 2\n    inc_b = 3\n    second_inc = 4\n    j_b = 5\n    call w%bound()\n  end subroutine s\nend module mb\n")
 C = "submodule (a) asub\n  integer :: sv\ncontains\n  module subroutine msub(x)\n    integer :: x\n    x = av\n  end subroutine msub\nend submodule asub\n"
 I = ["integer :: from_inc\n", "integer :: inc_b\nreal :: other_inc\n"]
 BL = B.split("\n")
@@ -63,7 +65,7 @@ def dump(srv):
     for tag, ln, col in (("v%", _line("v%"), 6), ("w%", _line("w%"), 6), ("z%", _line("z%"), 6)):
         r = ws.request(srv, "textDocument/completion", PB, ln, col)
         out["comp " + tag] = sorted(i["label"] for i in (r[1] or [])) if r[0] == "resp" else r
-    for name, text, col in (("av", "av = 1", 4), ("helper", "call helper()", 9), ("from_inc", "from_inc = 2", 4), ("inc_b", "inc_b = 3", 4),
+    for name, text, col in (("av", "av = 1", 4), ("helper", "call helper()", 9), ("from_inc", "from_inc = 2", 4), ("inc_b", "inc_b = 3", 4), ("second_inc", "second_inc = 4", 4), ("j_b", "j_b = 5", 4),
                             ("t", "type(t) :: v", 7), ("u.t", "type, extends(t) :: u", 16), ("bound", "call w%bound()", 11)):
         ln = _line(text)
         for meth in ("textDocument/definition", "textDocument/hover"):
@@ -103,19 +105,19 @@ def notify(srv, method, path, **extra):
 EVENTS = [("query", None, None)]
 EVENTS += [("change", "a", i) for i in range(len(A))] + [("save", "a", i) for i in range(len(A))]
 EVENTS += [("change", "i", i) for i in range(len(I))] + [("save", "i", i) for i in range(len(I))]
-EVENTS += [("change", "g", 1), ("save", "g", 1), ("edit1", "a", None), ("close", "g", None)]
+EVENTS += [("change", "g", 1), ("save", "g", 1), ("edit1", "a", None), ("close", "g", None), ("save", "j", 1), ("change", "j", 1)]
 EVENTS += [("close", "a", None), ("delete", "a", None), ("create", "a", 0), ("create", "a", 1), ("delete", "c", None), ("create", "c", 0),
            ("delete", "i", None), ("create", "i", 1)]
 NEV = len(EVENTS)
-PATHS = {"a": PA, "i": PI, "c": PC, "b": PB, "g": PG, "p": PP}
-VERS = {"a": A, "i": I, "c": [C], "b": [B], "g": G, "p": [P]}
+PATHS = {"a": PA, "i": PI, "c": PC, "b": PB, "g": PG, "p": PP, "j": PJ}
+VERS = {"a": A, "i": I, "c": [C], "b": [B], "g": G, "p": [P], "j": J}
 
 
 def run_history(evs, final_a: int, final_i: int):
     """-> (dump of the long-lived server, dump of a fresh server)"""
-    files = {PA: A[0], PB: B, PC: C, PI: I[0], PG: G[0], PP: P}
+    files = {PA: A[0], PB: B, PC: C, PI: I[0], PG: G[0], PP: P, PJ: J[0]}
     srv = ws.reset(SRV, files)
-    open_docs = {PA, PB, PC, PI, PG, PP}
+    open_docs = {PA, PB, PC, PI, PG, PP, PJ}
     for kind, f, ver in evs:
         if kind == "query":
             dump(srv)
@@ -154,6 +156,8 @@ def run_history(evs, final_a: int, final_i: int):
         ws.FILES[PI] = I[final_i]
     if PG in ws.FILES:
         ws.FILES[PG] = G[(final_a + final_i) % 2]
+    if PJ in ws.FILES:
+        ws.FILES[PJ] = J[(final_a + 1) % 2]
     for p in sorted(ws.FILES):
         if p not in open_docs:
             notify(srv, "textDocument/didOpen", p)
@@ -202,7 +206,7 @@ def history(e0: int, fa: int) -> bool:
 # ------------------------------------------------------------------------------------ (G) generation counter
 def _probe_wraps() -> bool:
     """does the real counter wrap?  one real save step from 999"""
-    srv = ws.reset(SRV, {PA: A[0], PB: B, PC: C, PI: I[0], PG: G[0], PP: P})
+    srv = ws.reset(SRV, {PA: A[0], PB: B, PC: C, PI: I[0], PG: G[0], PP: P, PJ: J[0]})
     srv.link_version = 999
     ws.FILES[PA] = A[1]
     notify(srv, "textDocument/didSave", PA)
@@ -215,7 +219,7 @@ WRAPS = _probe_wraps()
 def _confirm_wrap_history() -> bool:
     """concrete history: module mb is resolved, then 999 reparsing edits of another file, then a's type changes on
     disk and is saved: does mb's inherited layout stay stale compared with a fresh server?"""
-    files = {PA: A[0], PB: B, PC: C, PI: I[0], PG: G[0], PP: P}
+    files = {PA: A[0], PB: B, PC: C, PI: I[0], PG: G[0], PP: P, PJ: J[0]}
     srv = ws.reset(SRV, files)
     for p in sorted(files):
         notify(srv, "textDocument/didSave", p)
@@ -242,7 +246,7 @@ def generation(v: int, w: int) -> bool:
     """
     tick("generation")
     with NoTracing():
-        files = {PA: A[0], PB: B, PC: C, PI: I[0], PG: G[0], PP: P}
+        files = {PA: A[0], PB: B, PC: C, PI: I[0], PG: G[0], PP: P, PJ: J[0]}
         srv = ws.reset(SRV, files)
         u = next(s for s in srv.workspace[PB].ast.scope_list if s.name == "u")
     srv.link_version = v
